@@ -73,6 +73,8 @@ type B struct {
 	Hung  bool // quiescence was not reached within the timeout at some step
 	opts  Opts
 	wg    sync.WaitGroup
+	// pending counts Do actions that have not returned yet
+	pending atomic.Int32
 }
 
 // New creates a server (no listeners, no event loop) with the recording hook installed.
@@ -195,7 +197,18 @@ func (b *B) Tick(kind string, now int64) {
 // Do runs an arbitrary synchronous action against the server as one step (inline API calls, Close...).
 func (b *B) Do(f func()) {
 	b.Step++
-	f()
+	// f runs in its own goroutine: an action such as Server.Close waits for connection handlers,
+	// which stay parked until Quiesce releases them, so f must not block the harness itself.
+	b.pending.Add(1)
+	go func() {
+		defer b.pending.Add(-1)
+		defer func() {
+			if r := recover(); r != nil {
+				b.Rec.add(HookEvent{Name: "PANIC", Extra: fmt.Sprint(r)})
+			}
+		}()
+		f()
+	}()
 	b.Quiesce()
 }
 
@@ -203,9 +216,11 @@ func (b *B) Do(f func()) {
 // queue holds or is writing a packet; checked twice in a row.
 func (b *B) Quiesce() {
 	deadline := time.Now().Add(b.opts.QuiesceTimeout)
-	stable := 0
+	stable := 0  // consecutive rounds in which connections and queues were quiet
+	stableP := 0 // ... and no Do action was running, sampled BEFORE looking at the queues
 	spins := 0
 	for {
+		pz := b.pending.Load() == 0
 		ok := b.Srv.VerifQuiescent()
 		if ok {
 			for _, c := range b.Conns {
@@ -218,21 +233,30 @@ func (b *B) Quiesce() {
 		}
 		if ok {
 			stable++
+			if pz {
+				stableP++
+			} else {
+				stableP = 0
+			}
 			if stable >= 3 {
 				// everything else is quiet: now let the handler of a connection the broker closed
 				// from another goroutine (takeover, shutdown) run its teardown, one at a time, in
-				// connection order, so that the order of effects is deterministic.
+				// connection order, so that the order of effects is deterministic.  This also happens
+				// while a Do action is pending (Server.Close waits for the handlers).
+				released := false
 				if !b.opts.ManualTeardown {
 					if c := b.heldConn(); c != nil {
 						c.MC.releaseClose()
-						stable = 0
-						continue
+						stable, stableP = 0, 0
+						released = true
 					}
 				}
-				return
+				if !released && stableP >= 3 {
+					return
+				}
 			}
 		} else {
-			stable = 0
+			stable, stableP = 0, 0
 		}
 		spins++
 		if spins < 50 {
